@@ -1926,3 +1926,333 @@ func init() {
 		extraBodyPreserver(c, r, "C17-R8")
 	})
 }
+
+// ---------- C07-R11 / C04-R10 / C03-R12: the health checker writes back what the probe found ----------
+func init() {
+	registerExtra("C07", func(c *Ctx, r *Report) { healthWritesProbeResult(c, r, "C07-R11") })
+	registerExtra("C04", func(c *Ctx, r *Report) { healthWritesProbeResult(c, r, "C04-R10") })
+	registerExtra("C03", func(c *Ctx, r *Report) { healthWritesProbeResult(c, r, "C03-R12") })
+}
+
+func healthWritesProbeResult(c *Ctx, r *Report, rule string) {
+	r.Rule(rule, "in the health package, the status stored into the endpoint copy that is written back to the repository is the status of the probe result on every path (HealthCheckResult.Status), never the status the endpoint had in the snapshot taken before the probe: a proxy-detected failure recorded while the probe was in flight must not be overwritten with a stale `healthy`", 1)
+	n := 0
+	for _, f := range c.Funcs {
+		if !strings.HasSuffix(fnPkgPath(f), pkgHealth) {
+			continue
+		}
+		eachInstr(f, func(in ssa.Instruction) {
+			st, ok := in.(*ssa.Store)
+			if !ok || !isField(st.Addr, pkgDomain, "Endpoint", "Status") {
+				return
+			}
+			n++
+			key := fname(f) + ":Endpoint.Status="
+			var stale bool
+			var walk func(v ssa.Value, d int)
+			walk = func(v ssa.Value, d int) {
+				if v == nil || d == 0 {
+					return
+				}
+				switch x := v.(type) {
+				case *ssa.Phi:
+					for _, e := range x.Edges {
+						walk(e, d-1)
+					}
+				case *ssa.UnOp:
+					if x.Op == token.MUL && isField(x.X, pkgDomain, "Endpoint", "Status") {
+						stale = true
+					}
+				case *ssa.ChangeType:
+					walk(x.X, d-1)
+				}
+			}
+			walk(st.Val, 5)
+			if stale {
+				r.Bad(rule, key, in.Pos(), "the status written back can be the endpoint's own earlier status instead of the probe's result: a probe that was cut short re-admits (or keeps out) the endpoint without any check having passed (or failed)")
+			} else {
+				r.OK(rule, key, in.Pos(), "status taken from the probe result")
+			}
+		})
+	}
+	if n == 0 {
+		r.Unresolved(rule, "store to Endpoint.Status in the health package")
+	}
+	if rule == "C07-R11" {
+		addMutants(Mutant{Prop: "C07", Name: "aborted-probe-keeps-old-status", File: "internal/adapter/health/checker.go", Rule: "C07-R11",
+			Old: "	newStatus := result.Status\n", New: "	newStatus := result.Status\n	if ctx.Err() != nil {\n		newStatus = oldStatus\n	}\n"})
+	}
+}
+
+// ---------- C05-R10: the retry entry reports success only when an attempt succeeded ----------
+func init() { registerExtra("C05", extraC05NilOnlyOnSuccess) }
+
+func extraC05NilOnlyOnSuccess(c *Ctx, r *Report) {
+	r.Rule("C05-R10", "the shared retry entry returns a nil error only on the branch where the attempt it just made returned nil; every other return (exhausted candidates, skipped endpoints, cancellation, selection failure) yields an error that cannot be nil — including what its helper for the final error returns. Otherwise a request nobody answered is reported as served and the client gets an empty 2xx", 4)
+	loopFn, sites := retryLoopFunc(c)
+	if loopFn == nil {
+		r.Unresolved("C05-R10", "function invoking a core.ProxyFunc value inside a loop")
+		return
+	}
+	attemptVals := map[ssa.Value]bool{}
+	for _, s := range sites {
+		if v, ok := s.(ssa.Value); ok {
+			attemptVals[v] = true
+		}
+	}
+	nonNilFact := func(b *ssa.BasicBlock, v ssa.Value) (nonNil, isNil bool) {
+		for _, cf := range normFacts(condFacts(b)) {
+			bo, ok := cf.Cond.(*ssa.BinOp)
+			if !ok || !isNilConst(bo.Y) || bo.X != v {
+				continue
+			}
+			if (bo.Op == token.NEQ && cf.True) || (bo.Op == token.EQL && !cf.True) {
+				nonNil = true
+			}
+			if (bo.Op == token.EQL && cf.True) || (bo.Op == token.NEQ && !cf.True) {
+				isNil = true
+			}
+		}
+		return
+	}
+	var mayBeNil func(v ssa.Value, b *ssa.BasicBlock, d int) bool
+	mayBeNil = func(v ssa.Value, b *ssa.BasicBlock, d int) bool {
+		if v == nil || d == 0 {
+			return true
+		}
+		if isNilConst(v) {
+			return true
+		}
+		if nn, _ := nonNilFact(b, v); nn {
+			return false
+		}
+		switch x := v.(type) {
+		case *ssa.Call:
+			ci := describeCall(&x.Call)
+			if (ci.Pkg == "fmt" && ci.Name == "Errorf") || (ci.Pkg == "errors" && (ci.Name == "New" || ci.Name == "Join")) {
+				return false
+			}
+			if sc := x.Call.StaticCallee(); sc != nil && c.inRepo(sc) && sc.Blocks != nil {
+				for _, ret := range returnsOf(sc) {
+					res := retResults(ret)
+					if len(res) == 0 {
+						continue
+					}
+					if mayBeNil(res[len(res)-1], ret.Block(), d-1) {
+						return true
+					}
+				}
+				return false
+			}
+			return true
+		case *ssa.Phi:
+			for _, e := range x.Edges {
+				if mayBeNil(e, b, d-1) {
+					return true
+				}
+			}
+			return false
+		case *ssa.MakeInterface:
+			return false
+		case *ssa.Extract:
+			return true
+		case *ssa.UnOp:
+			if g, ok := x.X.(*ssa.Global); ok && g.Pkg != nil {
+				return false // a sentinel error variable
+			}
+		}
+		return true
+	}
+	for i, ret := range returnsOf(loopFn) {
+		res := retResults(ret)
+		if len(res) == 0 {
+			continue
+		}
+		ev := res[len(res)-1]
+		key := fmt.Sprintf("%s:return#%d:%s", fname(loopFn), i, returnGuardKey(ret))
+		if !mayBeNil(ev, ret.Block(), 4) {
+			r.OK("C05-R10", key, retPos(loopFn, ret), "returns a non-nil error")
+			continue
+		}
+		success := false
+		for v := range attemptVals {
+			if _, isNil := nonNilFact(ret.Block(), v); isNil {
+				success = true
+			}
+		}
+		if success {
+			r.OK("C05-R10", key, retPos(loopFn, ret), "nil only because the attempt just made returned nil")
+		} else {
+			r.Bad("C05-R10", key, retPos(loopFn, ret), "the retry entry can return a nil error on a path where no attempt succeeded (the value returned here may be nil): the engine reports success, the handler writes nothing, and the client receives an empty 200")
+		}
+	}
+	addMutants(Mutant{Prop: "C05", Name: "final-error-may-be-nil", File: "internal/adapter/proxy/core/retry.go", Rule: "C05-R10",
+		Old: "func (h *RetryHandler) buildFinalError(availableEndpoints []*domain.Endpoint, maxRetries int, lastErr error) error {\n", New: "func (h *RetryHandler) buildFinalError(availableEndpoints []*domain.Endpoint, maxRetries int, lastErr error) error {\n	if lastErr == nil {\n		return nil\n	}\n"})
+}
+
+// ---------- C05-R11: routes hand the handlers the registered translator itself ----------
+func init() { registerExtra("C05", extraC05TranslatorIdentity) }
+
+func extraC05TranslatorIdentity(c *Ctx, r *Report) {
+	r.Rule("C05-R11", "the translator value a route is registered with (argument of translationHandler / tokenCountHandler) is the value obtained from the translator registry, not a new wrapper built around it: the handlers discover ErrorWriter, PassthroughCapable, TokenCounter and BodySizeLimiter by type assertion on that value, and a wrapper that embeds only RequestTranslator hides them — Olla's own errors then lose the Anthropic error format", 2)
+	n := 0
+	targets := map[*ssa.Function]bool{}
+	for _, nm := range []string{"(*Application).translationHandler", "(*Application).tokenCountHandler"} {
+		if f := c.Fn(pkgHandlers, nm); f != nil {
+			targets[f] = true
+		}
+	}
+	for _, f := range c.Funcs {
+		if !strings.HasSuffix(fnPkgPath(f), pkgHandlers) {
+			continue
+		}
+		eachInstr(f, func(in ssa.Instruction) {
+			cc := getCall(in)
+			if cc == nil || !targets[cc.StaticCallee()] {
+				return
+			}
+			n++
+			key := fname(f) + "→" + cshort(cc.StaticCallee()) + ":translator-argument"
+			var arg ssa.Value
+			for _, a := range cc.Args {
+				if isNamed(a.Type(), "internal/adapter/translator", "RequestTranslator") {
+					arg = a
+				}
+			}
+			if arg == nil {
+				r.Undecided("C05-R11", key, in.Pos(), "translator argument not found")
+				return
+			}
+			if mi, ok := arg.(*ssa.MakeInterface); ok {
+				r.Bad("C05-R11", key, in.Pos(), "the handler is given a freshly wrapped value of type "+mi.X.Type().String()+" instead of the registered translator: optional capabilities found by type assertion (ErrorWriter, PassthroughCapable, …) are hidden behind the wrapper")
+			} else {
+				r.OK("C05-R11", key, in.Pos(), "the registry's own translator value is passed on")
+			}
+		})
+	}
+	if n == 0 {
+		r.Unresolved("C05-R11", "call of translationHandler / tokenCountHandler")
+	}
+	addMutants(Mutant{Prop: "C05", Name: "translator-wrapped-at-registration", File: "internal/app/handlers/server_routes.go", Rule: "C05-R11",
+		Old: "			handler := a.translationHandler(trans)\n", New: "			handler := a.translationHandler(struct{ translator.RequestTranslator }{trans})\n"})
+}
+
+// ---------- C01-R12: the engines forward with the transport, not with an http.Client ----------
+func init() { registerExtra("C01", extraC01NoClient) }
+
+func extraC01NoClient(c *Ctx, r *Report) {
+	r.Rule("C01-R12", "the proxy engines send the upstream request with http.RoundTripper.RoundTrip: they never use (*http.Client).Do/Get/Post/Head, whose redirect policy would chase a backend's 3xx itself — re-sending the request as a GET without body to another path — instead of relaying the 3xx to the client", 2)
+	n := 0
+	for _, f := range c.Funcs {
+		if !strings.Contains(fnPkgPath(f), "/adapter/proxy/") {
+			continue
+		}
+		eachInstr(f, func(in ssa.Instruction) {
+			cc := getCall(in)
+			if cc == nil {
+				return
+			}
+			ci := describeCall(cc)
+			if ci.Name == "RoundTrip" {
+				n++
+				r.OK("C01-R12", fname(f)+":RoundTrip", in.Pos(), "sent through the transport")
+				return
+			}
+			if ci.Pkg == "net/http" && ((ci.Recv == "Client" && (ci.Name == "Do" || ci.Name == "Get" || ci.Name == "Post" || ci.Name == "PostForm" || ci.Name == "Head")) || (ci.Recv == "" && (ci.Name == "Get" || ci.Name == "Post" || ci.Name == "Head" || ci.Name == "PostForm"))) {
+				n++
+				r.Bad("C01-R12", fname(f)+":http.Client."+ci.Name, in.Pos(), "the engine sends the upstream request through an http.Client: the client's redirect policy follows a backend's 301/302/303 by itself (as a GET with no body, to a different path) and the client never sees the redirect")
+			}
+		})
+	}
+	if n == 0 {
+		r.Unresolved("C01-R12", "RoundTrip call in the proxy engines")
+	}
+	addMutants(Mutant{Prop: "C01", Name: "engine-uses-http-client", File: "internal/adapter/proxy/sherpa/service_retry.go", Rule: "C01-R12",
+		Old: "s.transport.RoundTrip(proxyReq)", New: "(&http.Client{Transport: s.transport}).Do(proxyReq)"})
+}
+
+// ---------- C06-R9: the running minimum of the least-connections scan is kept up to date ----------
+func init() { registerExtra("C06", extraC06ArgMin) }
+
+func extraC06ArgMin(c *Ctx, r *Report) {
+	r.Rule("C06-R9", "in the least-connections selector's scan, the value a candidate's connection count is compared with is a loop-carried running minimum that is assigned that candidate's count on the branch which selects it: comparing every candidate with a value that is never updated returns the last endpoint below the first one's count, not the minimum", 1)
+	fn := c.Fn(pkgBalancer, "(*LeastConnectionsSelector).Select")
+	if fn == nil {
+		r.Unresolved("C06-R9", "(*LeastConnectionsSelector).Select")
+		return
+	}
+	loops := naturalLoops(fn)
+	fromLookup := func(v ssa.Value) bool {
+		for i := 0; i < 4 && v != nil; i++ {
+			switch x := v.(type) {
+			case *ssa.Lookup:
+				return true
+			case *ssa.Extract:
+				v = x.Tuple
+			case *ssa.Convert:
+				v = x.X
+			default:
+				return false
+			}
+		}
+		return false
+	}
+	n := 0
+	eachInstr(fn, func(in ssa.Instruction) {
+		cmp, ok := in.(*ssa.BinOp)
+		if !ok || (cmp.Op != token.LSS && cmp.Op != token.LEQ && cmp.Op != token.GTR && cmp.Op != token.GEQ) || !inLoop(in.Block()) {
+			return
+		}
+		var count, min ssa.Value
+		switch {
+		case fromLookup(cmp.X):
+			count, min = cmp.X, cmp.Y
+		case fromLookup(cmp.Y):
+			count, min = cmp.Y, cmp.X
+		default:
+			return
+		}
+		if _, isK := min.(*ssa.Const); isK {
+			return
+		}
+		n++
+		key := fname(fn) + ":running-minimum"
+		updated := false
+		if p, ok := min.(*ssa.Phi); ok {
+			if loop, isHeader := loops[p.Block()]; isHeader {
+				var has func(v ssa.Value, d int) bool
+				has = func(v ssa.Value, d int) bool {
+					if v == nil || d == 0 {
+						return false
+					}
+					if v == count {
+						return true
+					}
+					if q, ok := v.(*ssa.Phi); ok && q != p {
+						for _, e := range q.Edges {
+							if has(e, d-1) {
+								return true
+							}
+						}
+					}
+					return false
+				}
+				for i, e := range p.Edges {
+					if i < len(p.Block().Preds) && loop[p.Block().Preds[i]] && has(e, 4) {
+						updated = true
+					}
+				}
+			}
+		}
+		if updated {
+			r.OK("C06-R9", key, in.Pos(), "the compared value is a loop-carried minimum updated with the candidate's count")
+		} else {
+			r.Bad("C06-R9", key, in.Pos(), "candidates are compared with a value that the loop never updates with the candidate's own count: the scan does not find the minimum (e.g. counts [3 1 2] select the endpoint with 2)")
+		}
+	})
+	if n == 0 {
+		r.Undecided("C06-R9", fname(fn)+":running-minimum", fn.Pos(), "no comparison of a looked-up connection count inside the scan loop")
+	}
+	addMutants(Mutant{Prop: "C06", Name: "minimum-not-updated", File: "internal/adapter/balancer/least_connections.go", Rule: "C06-R9",
+		Old: "			minConnections = connections\n", New: ""})
+}
